@@ -54,7 +54,7 @@ func init() {
 		Phases:      phases,
 		Run:         run,
 		Floors: func(t string) map[string]int64 {
-			return map[string]int64{"runs.free": 1000, "runs.perturbed": 300, "runs.forced": 200, "window.forced_observed": 100, "window.handshake_runs": 100, "doc.tiny": 8, "doc.negative_ids": 8, "doc.ids_beyond_2^40": 8, "keep.tags": 100, "keep.tags.empty_string_among_wanted_values": 15, "keep.bounds": 100, "keep.all": 100,
+			return map[string]int64{"runs.free": 1000, "runs.perturbed": 300, "runs.forced": 200, "window.forced_observed": 100, "window.handshake_runs": 100, "doc.tiny": 8, "doc.negative_ids": 8, "doc.ids_beyond_2^40": 8, "keep.tags": 100, "keep.tags.empty_string_among_wanted_values": 15, "doc.with_a_rejected_element": 1, "keep.bounds": 100, "keep.all": 100,
 				"order.shuffled": 8, "order.ways_first": 3, "order.reverse_cascade": 3, "doc.cascade": 20, "doc.relation_cycle": 5, "doc.dangling": 1, "filter.checked": 100, "gomaxprocs.16": 50, "format.pbf": 300, "format.xml": 1000}
 		},
 	})
@@ -772,6 +772,9 @@ func run(c *core.Ctx, idx int) {
 		keeps[0].vals = []string{"other", "v", "v"}
 	}
 	race := c.Phase == "race"
+	if !race && r.Chance(0.08) {
+		rejectedElement(c, d, xmlBytes)
+	}
 	for _, k := range keeps {
 		c.Count("keep." + k.kind)
 		want, dangling := model(d, k, nil)
@@ -896,6 +899,60 @@ func run(c *core.Ctx, idx int) {
 				filterLaws(c, d, data, got, detail)
 			}
 		}
+	}
+}
+
+// rejectedElement puts an element the extractor does not accept (a changeset) into the document and
+// extracts with one and with four workers: whatever the outcome is (an error), it must arrive, and
+// be of the same kind for both settings. "Arrives" is bounded progress: 30 s for a document of at
+// most 80 elements whose extraction takes well under a millisecond.
+func rejectedElement(c *core.Ctx, d *doc, xmlBytes []byte) {
+	i := bytes.Index(xmlBytes, []byte("<osm"))
+	if i < 0 {
+		return
+	}
+	j := bytes.IndexByte(xmlBytes[i:], '>')
+	if j < 0 || xmlBytes[i+j-1] == '/' {
+		return
+	}
+	at := i + j + 1
+	if c.R.Bool() {
+		// or just before the closing tag
+		if k := bytes.LastIndex(xmlBytes, []byte("</osm>")); k > at {
+			at = k
+		}
+	}
+	docBytes := append(append(append([]byte{}, xmlBytes[:at]...), []byte(`<changeset id="1"/>`)...), xmlBytes[at:]...)
+	c.Count("doc.with_a_rejected_element")
+	type outcome struct {
+		returned bool
+		failed   bool
+	}
+	var outs [2]outcome
+	for n, procs := range []int{1, 4} {
+		c.Eval()
+		detail := map[string]interface{}{"document": string(docBytes), "keep": "all", "gomaxprocs": procs}
+		done := make(chan error, 1)
+		prev := runtime.GOMAXPROCS(procs)
+		go func() {
+			defer func() {
+				if rec := recover(); rec != nil {
+					done <- fmt.Errorf("panic: %v", rec)
+				}
+			}()
+			_, err := gosm.ExtractXML(context.Background(), bytes.NewReader(docBytes), gosm.KeepAll(), true)
+			done <- err
+		}()
+		select {
+		case err := <-done:
+			outs[n] = outcome{returned: true, failed: err != nil}
+		case <-time.After(30 * time.Second):
+			c.Violate(fmt.Sprintf("rejected-element:no-return:gomaxprocs=%d", procs), fmt.Sprintf("ExtractXML of a document containing a <changeset> element did not return within 30 s at GOMAXPROCS=%d", procs), detail)
+		}
+		runtime.GOMAXPROCS(prev)
+	}
+	if outs[0].returned && outs[1].returned && outs[0].failed != outs[1].failed {
+		c.Violate("rejected-element:outcome-depends-on-gomaxprocs", fmt.Sprintf("a document containing a <changeset> element: error = %v with one worker, %v with four", outs[0].failed, outs[1].failed), map[string]interface{}{"document": string(docBytes)})
 	}
 }
 
